@@ -402,9 +402,10 @@ ValueType bufr_encoding_to_valtype( BufrValueEncoding *be )
                rb = be->ref_nbits > 0 ? be->ref_nbits : bufr_value_nbits(be->reference);
             else
                rb = 0;
+/* a signed 32-bit integer holds 31 bits of magnitude: 32 bits need VALTYPE_INT64 */
             if (be->nbits + rb <= 8)
                return VALTYPE_INT32; 
-            else if (be->nbits + rb <= 32)
+            else if (be->nbits + rb <= 31)
                return VALTYPE_INT32;
             else if(be->nbits + rb <= 64)
                return VALTYPE_INT64;
@@ -414,7 +415,7 @@ ValueType bufr_encoding_to_valtype( BufrValueEncoding *be )
       case TYPE_FLAGTABLE :
          if (be->nbits <= 8)
             return VALTYPE_INT32;
-         else if (be->nbits <= 32)
+         else if (be->nbits <= 31)
             return VALTYPE_INT32;
          else
 				{
